@@ -12,6 +12,7 @@ class Renderer:
         self.ctype = meta["ctype"]
         self.prelude = meta["prelude"]
         self.bases = meta["bases"]
+        self.ctlvar = meta["ctlvar"]
 
     # ---- small helpers ------------------------------------------------------------------
     def txt(self, n):
@@ -120,6 +121,8 @@ class Renderer:
                 return '__asm__("nop");'
             if k == "empty":
                 return ";"
+        if fm == "swcase":
+            return "switch (%s) { case %s: ; case %s: ; }" % (self.ctlvar[f["ct"]], self.caseconst(f["a"]), self.caseconst(f["b"]))
         if fm == "ctl":
             c = t(f["c"])
             return {"if": "if (%s) ;", "while": "while (%s) ;", "do": "do ; while (%s);", "for": "for (; %s; ) ;",
@@ -232,6 +235,27 @@ class Renderer:
         if fm == "dir":
             return self.directive(f)
         raise KeyError(fm)
+
+    M32 = {"0": 0, "1": 1, "-1": -1, "2": 2, "max31": 0x7fffffff, "min31": -0x80000000, "p32": 1 << 32}
+
+    @staticmethod
+    def _lit(v, ty):
+        if ty == "int":
+            return str(v)
+        if ty == "uint":
+            return "0x%xU" % v
+        if ty == "ull":
+            return "0x%xULL" % v
+        if v == -(1 << 63):
+            return "(-0x7fffffffffffffffLL - 1)"
+        return "%dLL" % v
+
+    def caseconst(self, c):
+        """the value k + m * 2^32 written as a constant of type ty"""
+        hi = self.M32[c["m"]] << 32
+        if c["wr"] == "sum":
+            return "%s + %d" % (self._lit(hi, "ll"), c["k"]) if c["k"] >= 0 else "%s - %d" % (self._lit(hi, "ll"), -c["k"])
+        return self._lit(hi + c["k"], c["ty"])
 
     def directive(self, f):
         d = f["d"]
